@@ -339,7 +339,7 @@ class S256Point(Point):
     def p2pk_tap_script(self):
         """Returns the p2tr Script object"""
         # avoid circular dependency
-        from buidl.script import P2PKTapScript
+        from buidl.taproot import P2PKTapScript
 
         return P2PKTapScript(self)
 
